@@ -211,7 +211,7 @@ def gen_builtin_text(rng):
         # first and last char printable non-space so .strip() is neutral
         s = [rng.choice(_PRINTABLE)]
         for _ in range(n - 2):
-            s.append(rng.choice(_PRINTABLE + "  \t\x01\x7f\x1b\u00e9\u65e5"))
+            s.append(rng.choice(_PRINTABLE + "  \t\x01\x7f\x1b\u00e9\u65e5\r\x0b\x0c\x1c\x1e\u0085\u2028"))
         s.append(rng.choice(_PRINTABLE))
         lines.append("".join(s))
     raw = "\n".join(lines).encode("utf-8") + b"\x00" * rng.choice([0, 1, 2])
@@ -301,7 +301,7 @@ def gen_id(rng, magnitude=None):
 def gen_pel(rng, *, eid=None, plid=None, bmc_id=None, creator=None, want_class=None,
             refcode_pool=None, ud_targets=None, max_sections=8, with_src=None,
             id_magnitude=None, src_callouts=None):
-    creator = creator or rng.choice(["O", "O", "O", "B", "H", "M", "T", "P", "S", "K", "L", "C"])
+    creator = creator or rng.choice(["O", "O", "O", "B", "H", "M", "T", "P", "S", "K", "L", "C", "O", "B", "H", "X", "7", "z"])
     sev, action = gen_class(rng, want_class)
     eid = gen_id(rng, id_magnitude) if eid is None else eid
     def stamp():
